@@ -297,6 +297,9 @@ def cases(tier):
     # the trivial tree (end points only) and the single-split tree
     fams.append((0.0, 1.0, "dyadic", [([0.0, 1.0], [0, 0])]))
     fams.append((-3.0, 6.0, "dyadic", [([-3.0, 6.0], [0, 0])]))
+    # integer-valued point sequences (Python ints): trees on [0, 16] whose points are all integers
+    Tint = [([int(x) for x in p], l) for p, l in trees.tree_family(3, 4, 0.0, 16.0)]
+    fams.append((0, 16, "dyadic", Tint))
     for a, b, split, T in fams:
         for pts, lv in T:
             out.append({"config": {"kind": "trap", "a": a, "b": b, "split": split, "points": pts, "levels": lv}})
